@@ -180,8 +180,10 @@ def gen_model(seed, n, uid=0, shape=(8, 12), scalars=None, image=True, mask=True
     if scalars is None:
         scalars = ["area_um", "deform", "bright_avg", "pos_x", "time", "frame", "index_online"]
     for f in scalars:
-        nm = nan_mode if (f in FLOAT_SCALARS and f not in ("area_um", "deform")) else "none"
-        m.feats[f] = scalar_values(rs, f, n, uid, nm, special and f in FLOAT_SCALARS)
+        # (no NaN centroids: pos_x/pos_y are derived from the contour in real data; a NaN centroid next to a stored contour
+        #  makes the volume computation fail an internal assertion - an inconsistent input, not a layout)
+        nm = nan_mode if (f in FLOAT_SCALARS and f not in ("area_um", "deform", "pos_x", "pos_y")) else "none"
+        m.feats[f] = scalar_values(rs, f, n, uid, nm, special and f in FLOAT_SCALARS and f not in ("pos_x", "pos_y"))
     masks = None
     if mask or contour:
         masks = np.array([blob_mask(rs, h, w) for _ in range(n)], dtype=bool).reshape(n, h, w)
